@@ -54,6 +54,7 @@ Rewrite rules (closed list, every application logged with source line):
   T   `//@extract file=F impl=I fn=f default_file=G default_impl=J`: when impl I does not define f, the trait's default
       body (impl J in G) is extracted instead -- Rust's own method resolution
   N11 (opt-in) `E.and_then(|p| B)` on an Option -> `match` (definition)
+  N12 (opt-in) `(A..B).rev().find_map(|p| BODY)` -> a `while` loop going from B-1 down to A that stops at the first Some
   A   arm focus (see //@arms)
   P   prefix focus (//@cut before=/re/): the function's statements from the anchor (a top-level
       statement) to the end are replaced by `return self.vx_rest()`, a stub with no contract
@@ -1086,6 +1087,49 @@ def desugar_and_then(text, log, relfile, line):
     raise VxError("N11: did not reach a fixpoint")
 
 
+def desugar_rev_find_map(text, log, relfile, line):
+    """Rule N12 (opt-in, pre-pass): `(A..B).rev().find_map(|p| BODY)` ->
+       `{ let mut __kN = B; let mut __rN = None; while __kN > A && __rN.is_none() { __kN -= 1; let p = __kN; __rN = BODY; } __rN }`
+       (definition of Rev<Range>::find_map: the first Some met going from B-1 down to A; BODY side-effect free)"""
+    k = 200
+    for _round in range(10):
+        toks = code_toks(tokenize(text))
+        n = len(toks)
+        cand = None
+        for i, t in enumerate(toks):
+            # ( A .. B ) . rev ( ) . find_map ( |p| BODY )
+            if t.kind == "ident" and t.text == "find_map" and i >= 6 and [x.text for x in toks[i - 5:i]] == [".", "rev", "(", ")", "."] \
+                    and toks[i - 6].text == ")" and i + 2 < n and toks[i + 1].text == "(" and toks[i + 2].text == "|":
+                # find the matching `(` of the range
+                q, d = i - 6, 0
+                while q >= 0:
+                    if toks[q].text == ")":
+                        d += 1
+                    elif toks[q].text == "(":
+                        d -= 1
+                        if d == 0:
+                            break
+                    q -= 1
+                inner = text[toks[q].end:toks[i - 6].start]
+                if ".." not in inner or "..=" in inner:
+                    continue
+                a, b = [x.strip() for x in inner.split("..", 1)]
+                pat, body, c = _closure_parts(toks, text, i + 1)
+                if SIDE_EFFECT_RE.search(body):
+                    raise VxError("N12: closure body may have side effects")
+                cand = (toks[q].start, toks[c].end, a, b, pat, body)
+                break
+        if cand is None:
+            return text
+        s0, e0, a, b, pat, body = cand
+        repl = "{\nlet mut __k%d = %s;\nlet mut __r%d = None;\nwhile __k%d > %s && __r%d.is_none() {\n__k%d -= 1;\nlet %s = __k%d;\n__r%d = %s;\n}\n__r%d\n}" % (
+            k, b, k, k, a, k, k, pat, k, k, body, k)
+        log.append(dict(rule="N12", file=relfile, line=line, before=re.sub(r"\s+", " ", text[s0:e0])[:160], after=re.sub(r"\s+", " ", repl)[:160]))
+        text = text[:s0] + repl + text[e0:]
+        k += 1
+    raise VxError("N12: did not reach a fixpoint")
+
+
 def rule_N7(src, lo, hi, enabled):
     """E.is_some_and(|p| B) -> (match E { Some(p) => B, None => false })
        E.is_none_or(|p| B)  -> (match E { Some(p) => B, None => true })   (definitions of the std methods)"""
@@ -1402,7 +1446,7 @@ def loop_headers(body):
 # --------------------------------------------------------------------------------------
 # vspec processing
 # --------------------------------------------------------------------------------------
-ALL_RULES = ["D1", "D2", "D3", "D5", "D6", "R1", "N1", "N2", "N3", "N4", "N5", "N6", "N7", "N8", "N9", "N10", "N11"]
+ALL_RULES = ["D1", "D2", "D3", "D5", "D6", "R1", "N1", "N2", "N3", "N4", "N5", "N6", "N7", "N8", "N9", "N10", "N11", "N12"]
 KV_RE = re.compile(r'(\w+)=("([^"]*)"|\S+)')
 
 
@@ -1555,7 +1599,7 @@ class Gen:
             rel = kv["default_file"]
             src = self.src(rel)
             loc = find_fn(src, name, kv.get("default_impl"), 0)
-        enabled = set(ALL_RULES) - {"N8", "N10", "N11"}   # N8 (Option::map) and N10 (collect chains) are opt-in
+        enabled = set(ALL_RULES) - {"N8", "N10", "N11", "N12"}   # N8 (Option::map) and N10 (collect chains) are opt-in
         maps, sigmaps, arms, cut = [], [], None, None
         from_after = None
         requires, ensures = [], []
@@ -1659,6 +1703,10 @@ class Gen:
             hi = lo + len(new_body)
         if "N6" in enabled and re.search(r"\.iter\(\)\s*\.(any|filter|position)\(", src[lo:hi]):
             new_body = desugar_iter_chains(src[lo:hi], self.log, rel, fn_line)
+            src = src[:lo] + new_body + src[hi:]
+            hi = lo + len(new_body)
+        if "N12" in enabled and ".find_map(" in src[lo:hi]:
+            new_body = desugar_rev_find_map(src[lo:hi], self.log, rel, fn_line)
             src = src[:lo] + new_body + src[hi:]
             hi = lo + len(new_body)
         if "N11" in enabled and ".and_then(" in src[lo:hi]:
